@@ -120,6 +120,14 @@ def _conj(cs):
     return r
 
 
+def _impl(a, b):
+    if isinstance(a, (bool, _np.bool_)):
+        return b if a else True
+    if isinstance(b, (bool, _np.bool_)):
+        return True if b else ~a
+    return ~a | b
+
+
 class Ppos(_Case):
     prop = 'C20'
 
@@ -300,8 +308,117 @@ class BoxStats(_Case):
         return res
 
 
+_PPF = _z3.Function('NORM_PPF', _z3.RealSort(), _z3.RealSort())
+
+
+def avg_rank(xs, i):
+    """1-based average rank of xs[i]: #{smaller} + (#{equal} + 1) / 2 (what pandas.Series.rank(method='average') returns for NaN-free data)"""
+    if not any(isinstance(v, _SR) for v in xs):
+        return sum(1 for v in xs if v < xs[i]) + (sum(1 for v in xs if v == xs[i]) + 1) / 2.0
+    t = lambda v: v.e if isinstance(v, _SR) else _core.term(v)
+    less = sum(_z3.If(t(v) < t(xs[i]), _z3.RealVal(1), _z3.RealVal(0)) for v in xs)
+    eq = sum(_z3.If(t(v) == t(xs[i]), _z3.RealVal(1), _z3.RealVal(0)) for v in xs)
+    return _SR(less + (eq + 1) / 2)
+
+
+class _RankStub:
+    """stands for pandas on the symbolic path: Series(x).rank(method='average') is the counting formula (validated against the real pandas in
+    the concrete scenario below and on every replay)"""
+    class Series:
+        def __init__(self, x):
+            self.x = list(_np.asarray(x, dtype=object).flat)
+
+        def rank(self, method='average'):
+            if method != 'average':
+                raise _core.Unsupported('rank method %r' % method)
+            return _core.symarray([avg_rank(self.x, i) for i in range(len(self.x))])
+
+
+class _NormStub:
+    """scipy.stats.norm on the symbolic path: ppf is an uninterpreted strictly increasing function on (0, 1)"""
+    def __init__(self):
+        self.args = []
+
+    def ppf(self, q):
+        out = []
+        for v in _np.asarray(q, dtype=object).flat:
+            t = v.e if isinstance(v, _SR) else _core.term(v)
+            r = _PPF(t)
+            for (u, ru) in self.args:
+                _assume(_z3.And((t < u) == (r < ru), (t == u) == (r == ru)))
+            self.args.append((t, r))
+            out.append(_SR(r))
+        return _core.symarray(out)
+
+
+class StdNormal(_Case):
+    """sutils.standard_normal: ranks = average ranks of the data, scores = norm.ppf of the plotting positions of the ranks (hence a strictly
+    increasing function of the ranks, equal for tied values)"""
+    prop = 'C20'
+
+    def __init__(self, n):
+        self.n = n
+        self.name = 'standard_normal:n%d' % n
+        self.params = dict(n=n)
+        self.functions = ['hydrodiy.stat.sutils.standard_normal']
+
+    def modules(self):
+        from hydrodiy.stat import sutils
+        return [sutils]
+
+    def inputs(self):
+        xs = []
+        for i in range(self.n):
+            v = _SR(_z3.Real('x%d' % i))
+            _assume(_z3.And(v.e >= -100, v.e <= 100))
+            xs.append(v)
+        c = _SR(_z3.Real('cst'))
+        _assume(_z3.And(c.e >= 0, c.e <= _q(0.5)))
+        return dict(x=xs, cst=c)
+
+    def run(self, I):
+        from hydrodiy.stat import sutils
+        sym = any(isinstance(v, _SR) for v in I['x'])
+        if not sym:
+            u, r = sutils.standard_normal(_np.array(I['x'], dtype=float), cst=float(I['cst']))
+            return dict(u=[float(v) for v in u], r=[float(v) for v in r], q=None)
+        old_pd, old_norm = sutils.pd, sutils.norm
+        stub = _NormStub()
+        sutils.pd, sutils.norm = _RankStub, stub
+        try:
+            u, r = sutils.standard_normal(_core.symarray(I['x']), cst=I['cst'])
+        finally:
+            sutils.pd, sutils.norm = old_pd, old_norm
+        return dict(u=list(_np.asarray(u, dtype=object).flat), r=list(_np.asarray(r, dtype=object).flat), q=[a for a, _ in stub.args])
+
+    def spec(self, I, O, err):
+        res = [('no-exception', err is None)]
+        if err is not None:
+            return res
+        xs, n, c = I['x'], self.n, I['cst']
+        sym = any(isinstance(v, _SR) for v in xs)
+        want = [avg_rank(xs, i) - 1 for i in range(n)]
+        res.append(('ranks=average-ranks-of-the-data', _conj([_close(O['r'][i], want[i], 1e-9) for i in range(n)])))
+        if sym:
+            # the scores are ppf of the plotting positions of those ranks
+            okq = len(O['q']) == n
+            res.append(('scores=ppf((rank+1-cst)/(n+1-2cst))', okq and _conj([_core.sb(O['q'][i] * (n + 1 - 2 * c.e) == (want[i].e + 1 - c.e)) for i in range(n)])))
+        else:
+            from scipy.stats import norm
+            res.append(('scores=ppf((rank+1-cst)/(n+1-2cst))', all(abs(O['u'][i] - norm.ppf((want[i] + 1 - c) / (n + 1 - 2 * c))) <= 1e-9 for i in range(n))))
+        for i in range(n):
+            for j in range(i + 1, n):
+                a, b = xs[i], xs[j]
+                lt = (a < b) if sym else bool(a < b)
+                eq = (a == b) if sym else bool(a == b)
+                ui, uj = O['u'][i], O['u'][j]
+                res.append(('score-order=data-order[%d,%d]' % (i, j), _conj([_impl(lt, ui < uj), _impl(eq, _close(ui, uj, 1e-12)), _impl(b < a if sym else bool(b < a), uj < ui)])))
+        return res
+
+
 def cases(tier):
-    out = [Ppos(n) for n in ((1, 2, 3, 6) if tier == 'quick' else (1, 2, 3, 4, 6, 9, 12))]
+    out = [StdNormal(n) for n in ((2, 3) if tier == 'quick' else (2, 3, 4))]
+    out += [Ppos(n) for n in ((1, 2, 3, 6) if tier == 'quick' else (1, 2, 3, 4, 6, 9, 12))]
     out += [Lhs(2, 1), Lhs(3, 1), Lhs(2, 2), Lhs(3, 2)] + ([Lhs(4, 1), Lhs(4, 2)] if tier == 'thorough' else [])
     out += [BoxStats(5, {}), BoxStats(5, {0: 'nan'}), BoxStats(5, {2: 'inf'}), BoxStats(6, {1: '-inf', 4: 'nan'}), BoxStats(4, {3: 'inf'}),
             BoxStats(5, {}, box=40.0, whis=99.0)]
@@ -312,7 +429,33 @@ def part_python(tier, seed, workdir):
     return _run_cases('C20', cases(tier), tier, seed)
 
 
-PARTS = [part_python]
+def validate_rank_model(tier):
+    """the counting formula that stands for pandas.Series.rank(method='average') on the symbolic path equals the real pandas on every vector
+    of length <= 5 over {0, 1, 2} (all tie patterns), and the real norm.ppf is strictly increasing on a grid (the two facts the stubs assume)"""
+    import itertools
+    import pandas as pd
+    from scipy.stats import norm
+    bad = []
+    for n in range(1, 6):
+        for xs in itertools.product((0.0, 1.0, 2.0), repeat=n):
+            got = [avg_rank(list(xs), i) for i in range(n)]
+            if got != list(pd.Series(xs).rank(method='average')):
+                bad.append(xs)
+    out = [('rank-model=pandas', not bad, dict(mismatches=bad[:3]))]
+    g = _np.linspace(0.001, 0.999, 999)
+    out.append(('norm.ppf-strictly-increasing', bool(_np.all(_np.diff(norm.ppf(g)) > 0)), {}))
+    return out
+
+
+CONTRACTS = [validate_rank_model]
+
+
+def contracts_part(tier, seed, workdir):
+    from engine.contracts import run_contracts
+    return run_contracts('C20', 'harness.C20', CONTRACTS, tier)
+
+
+PARTS = [part_python, contracts_part]
 META['explanation'] += ('; engine B: the real sutils.ppos (symbolic plotting constant), sutils.lhs (symbolic ranges, every permutation explored, jitter an arbitrary '
                         'value of its range) and boxplot.boxplot_stats (symbolic values with NaN / +-inf at chosen positions, numpy.nanpercentile replaced by a '
                         'recording stub) are executed on symbolic scalars and z3 decides: plotting positions strictly increasing in (0,1) and symmetric, one '
